@@ -31,6 +31,7 @@ var mapHarness = map[string]mapOrderHarness{
 
 func C12(c *core.Ctx) {
 	c.Explanation("C12 (ordering clauses only; data-race freedom is not decided statically): (C-fanin) for every entry point that starts a worker pool, every channel written by the pool is traced to its receivers; in each receiving function a forward taint from the received item must not reach an output write, a forwarding send or shared storage except through a map keyed by the item's index (re-order buffer), a slot store at the item's own index, an aggregation map, or a file created per item; (C-map) every iteration over a map is classified: guarded by len==1, commutative body (guarded extrema, counters, set updates), or order-sensitive - an order-sensitive iteration must have an evaluation harness in which the enclosing routine is interpreted twice, with forward and reversed map iteration order, on an input containing ties, and must produce identical output; (C-src) no math/rand, time.Now, pid or similar in pkg/.")
+	checkNoDeferInLoops(c, "C-src")
 	c.Assumption("data-race freedom is NOT decided: no sound static race analysis is available with the installed tools; the race detector is a runtime tool and is not used")
 	c.Assumption("reversing map iteration order stands in for all permutations; inputs with ties are chosen per routine")
 	p := facts(c)
@@ -123,39 +124,7 @@ func C12(c *core.Ctx) {
 	cf, err := parser.ParseFile(token.NewFileSet(), "control.go", ctrl, 0)
 	c.Ob("C-src/positive-control", err == nil && len(nondetUses(cf)) == 2, token.NoPos, "the matcher must find both banned uses in the control source")
 	c.Ob("C-src/none-in-pkg", nuses == 0, token.NoPos, "%d uses", nuses)
-	// who may write to the process's standard output: only the stage that writes the results there. A diagnostic
-	// printed to stdout by a reader or worker lands at a scheduling-dependent place among the result bytes.
-	{
-		allowed := map[string]bool{"sam." + currentName(c, "pkg/sam", "writePairwiseAlignment"): true, "gfio." + currentName(c, "pkg/gfio", "OpenOut"): true}
-		var bad []string
-		var bpos token.Pos
-		nref := 0
-		for _, f := range p.funcs {
-			if f.Pkg == nil || !strings.HasPrefix(c.RelOf(f.Pkg.Pkg), "pkg/") {
-				continue
-			}
-			for _, b := range f.Blocks {
-				for _, ins := range b.Instrs {
-					u, ok := ins.(*ssa.UnOp)
-					if !ok || u.Op != token.MUL {
-						continue
-					}
-					g, ok := u.X.(*ssa.Global)
-					if !ok || g.Pkg == nil || g.Pkg.Pkg.Path() != "os" || g.Name() != "Stdout" {
-						continue
-					}
-					nref++
-					if !allowed[fnKey(topFunc(f))] {
-						bad = append(bad, c.PosStr(ins.Pos())+": "+fnKey(topFunc(f))+" uses os.Stdout; only the result writers may (diagnostics go to os.Stderr)")
-						bpos = ins.Pos()
-					}
-				}
-			}
-		}
-		sort.Strings(bad)
-		c.Ob("C-src/only-result-writers-use-stdout", len(bad) == 0, bpos, "%s", first(bad, 3))
-		c.Floor("C-src/stdout-references", nref, 2)
-	}
+	checkStdoutWriters(c, p, "C-src")
 	// what a pool worker emits for a record does not depend on the records it handled before
 	if tabs := extractTables(c, newEval(c), "R0"); tabs.OK {
 		c.Count("workers_checked_stateless", checkWorkersStateless(c, "C-worker", tabs))
@@ -577,4 +546,54 @@ func harnessPush(c *core.Ctx, reverse bool) (string, error) {
 		sb.WriteString(";")
 	}
 	return sb.String(), nil
+}
+
+// checkStdoutWriters: who may write to the process's standard output - only the stage that writes the results
+// there. A diagnostic printed to stdout (through os.Stdout or fmt.Print*) by a reader, worker or entry point lands
+// among, or in front of, the result bytes.
+func checkStdoutWriters(c *core.Ctx, p *progFacts, rule string) {
+	allowed := map[string]bool{"sam." + currentName(c, "pkg/sam", "writePairwiseAlignment"): true, "gfio." + currentName(c, "pkg/gfio", "OpenOut"): true}
+	var bad []string
+	var bpos token.Pos
+	nref := 0
+	for _, f := range p.funcs {
+		if f.Pkg == nil || !strings.HasPrefix(c.RelOf(f.Pkg.Pkg), "pkg/") {
+			continue
+		}
+		if strings.HasSuffix(c.Fset.Position(f.Pos()).Filename, "pkg/sam/indels.go") {
+			continue // the deprecated command prints its deprecation notice; its results go to the two named files
+		}
+		for _, b := range f.Blocks {
+			for _, ins := range b.Instrs {
+				what := ""
+				switch x := ins.(type) {
+				case *ssa.UnOp:
+					if g, ok := x.X.(*ssa.Global); ok && x.Op == token.MUL && g.Pkg != nil && g.Pkg.Pkg.Path() == "os" && g.Name() == "Stdout" {
+						what = "os.Stdout"
+					}
+				case ssa.CallInstruction:
+					if cal := x.Common().StaticCallee(); cal != nil {
+						switch cal.String() {
+						case "fmt.Print", "fmt.Printf", "fmt.Println":
+							what = cal.String()
+						}
+					}
+					if bi, ok := x.Common().Value.(*ssa.Builtin); ok && (bi.Name() == "print" || bi.Name() == "println") {
+						what = ""
+					}
+				}
+				if what == "" {
+					continue
+				}
+				nref++
+				if !allowed[fnKey(topFunc(f))] {
+					bad = append(bad, c.PosStr(ins.Pos())+": "+fnKey(topFunc(f))+" uses "+what+"; only the result writers may write to standard output (diagnostics go to os.Stderr)")
+					bpos = ins.Pos()
+				}
+			}
+		}
+	}
+	sort.Strings(bad)
+	c.Ob(rule+"/only-result-writers-use-stdout", len(bad) == 0, bpos, "%s", first(bad, 3))
+	c.Floor(rule+"/stdout-references", nref, 2)
 }
